@@ -67,7 +67,6 @@ def main():
     for sid in ser:
         rc, out = eval_serial(sid, sid[:3])
         record(sid, sid[:3], rc, out)
-    sh('rm -rf /verif/build/par_* /tmp/verif_par_*')
 
 
 if __name__ == '__main__':
